@@ -8,7 +8,7 @@
    - payloads are reduced to a tag, a flight id, the identity of the field sets and a size; the contents of the other
      fields are C03's subject. *)
 From Coq Require Import ZArith List Bool.
-From AV Require Import model.Store_Model proofs.Store_Proofs proofs.Store_Refine
+From AV Require Import model.Store_Model proofs.Store_Proofs proofs.Store_IdWidth proofs.Store_Refine
                        proofs.Store_MergeProofs proofs.Store_MergedReads proofs.Store_Corollaries.
 Import ListNotations.
 
@@ -148,3 +148,22 @@ Example C09_nonvacuous :
            [OpenR OUT None; Len; Get 0; Get 1; Get 2; Get 3; GetFlight 50; GetFlight 30; GetFlight 7; Iter []])
   = [OUnit; OLen 3; OItem 0; OItem 1; OItem 2; OErr EIndex; OItem 2; OItem 0; ONone; OItems [0; 1; 2]%Z None].
 Proof. exact merge_demo. Qed.
+
+(* Identifier width in the merged index (see the note in C08_Props.v): the merged table — the inputs' tables shifted
+   by the lengths before them and concatenated — is unchanged by 64-bit buffers for every identifier of the int64
+   range, and so is every lookup in its sorted form ... *)
+Theorem C09_merged_index_exact_on_whole_int64_range : forall off parts,
+  (forall f, In f parts -> keys_in_int64 (f_table f)) ->
+  narrow_pairs 64 (merged_pairs off parts) = merged_pairs off parts /\
+  (forall x, table_lookup x (isort (narrow_pairs 64 (merged_pairs off parts))) =
+             table_lookup x (isort (merged_pairs off parts))).
+Proof. exact merged_index_exact_on_int64. Qed.
+Print Assumptions C09_merged_index_exact_on_whole_int64_range.
+
+(* ... while 32-bit buffers lose an identifier of the second input that the unmerged input still finds (seeded/C09-11) *)
+Theorem C09_32bit_merged_index_refuted :
+  exists (t1 t2 : list (Z * nat)), keys_in_int64 (t1 ++ t2) /\
+    table_lookup 2147483655 (isort (t1 ++ t2)) = Some 3%nat /\
+    table_lookup 2147483655 (isort (narrow_pairs 32 (t1 ++ t2))) = None.
+Proof. exact narrow32_breaks_merged. Qed.
+Print Assumptions C09_32bit_merged_index_refuted.
